@@ -7,7 +7,9 @@
      attestation_handler.go  AttestationHandler (only "is the claim parked"), ExecuteClaim
      observed.go, pending_execute_claim.go
      oracle.go       SetLastTotalPower, SlashOracle;  proposal.go UpdateProposalOracles,
-                     UnbondedOracleFromProposal;  abci.go slashing, pruneAttestations
+                     UnbondedOracleFromProposal;  abci.go pruneAttestations, EndBlocker (slashing phase imported
+                     from model/M_EndBlock.v, then createOracleSetRequest), confirm.go / batch.go / bridge_call_out.go
+                     as far as they create and confirm the objects the slashing phase looks at
      types/types.go  Oracle.GetPower, Oracle.GetSlashAmount;  types/params.go constants
 
    Abstractions (projection the properties C01/C02 need):
